@@ -148,7 +148,8 @@ def drawdowns(ctx):
                             'recurrence over range(1, n) with base element %s' % ([fmt(w.value) for w in base] or 'never assigned (stays 0)'), key='C17.S1|base')
             elif lo is not None:
                 ctx.undecided('C17.S1', 'recurrence lower bound is the tabled one (1 with a seeded base)', lp.site, fmt(it))
-    cum = [s_ for s_ in T.subterms(ret) if (s_[0] == 'call' and s_[1] in (('meth', 'cummax'), ('ext', 'numpy.maximum.accumulate'), ('ext', 'MAX.accumulate')))]
+    cum = [s_ for s_ in T.subterms(ret) if (s_[0] == 'call' and s_[1] in (('meth', 'cummax'), ('ext', 'numpy.maximum.accumulate'), ('ext', 'MAX.accumulate')))
+           or (s_[0] == 'call' and s_[1] == ('ext', 'itertools.accumulate') and len(s_[2]) == 2 and s_[2][1] == ('ext', 'MAX') and not s_[3])]
     if not recognised and cum:
         hwm = cum[0]
         recognised = True
